@@ -22,6 +22,10 @@
             claims: remove_pbc(_from_coord) moves every atom by a lattice vector, restores
             all intra-molecular displacements, puts the first atom / the centroid into the
             box, leaves bonded atoms at minimum-image distance.
+            Two shift families: every atom independently shifted by one of a few lattice
+            vectors (UnwrapCases), and a molecule CUT BY ONE FACE (edge, corner) of the box:
+            the atoms of a subset lie beyond the face f, the others do not (CutCases) - for
+            every face +-a, +-b, +-c of elongated boxes whose long axis is a, b or c.
    "xform"  <<P, kind, arg>> translate / rotate / rotate_centered / rotate_about_axis /
             align_vectors on a point set. *)
 EXTENDS GeomOps
@@ -36,6 +40,147 @@ ASSUME {GroupSeq[i] : i \in 1..48} = SignedPerms
 TransSeq == <<<<0, 0, 0>>, <<1, -2, 3>>, <<-4, 0, 1>>, <<2, 2, -5>>>>
 RotBox(g, B) == <<MatVec(g, B[1]), MatVec(g, B[2]), MatVec(g, B[3])>>
 RotBoxOpt(g, bo) == IF bo = <<>> THEN <<>> ELSE <<RotBox(g, bo[1])>>
+
+(* ------------------------------------------------------------------ bounded families *)
+\* (before the evaluation: EvalUnwrap reads the table CompactTab of the unwrap family)
+Ortho444 == Diag(4, 4, 4)
+Ortho248 == Diag(2, 4, 8)
+Tric1    == <<<<4, 0, 0>>, <<2, 4, 0>>, <<0, 0, 4>>>>
+Tric2    == <<<<4, 0, 0>>, <<0, 4, 0>>, <<2, -2, 4>>>>
+RotOrtho == <<<<2, 2, 0>>, <<-2, 2, 0>>, <<0, 0, 4>>>>
+Ortho844 == Diag(8, 4, 4)
+Tric3    == <<<<8, 0, 0>>, <<-2, 4, 0>>, <<2, 2, 4>>>>
+LeftHand == <<<<0, 4, 0>>, <<4, 0, 0>>, <<0, 0, 4>>>>
+Skewed   == <<<<4, 0, 0>>, <<6, 4, 0>>, <<0, 2, 4>>>>          \* heavily skewed: outside Dom_HalfHeight often
+\* the three tilts a.b, a.c, b.c: every zero / non-zero combination occurs among the triclinic
+\* boxes (Tric1: a.b only, Tric2: a.c and b.c, Tric3: all three, Skewed: a.b and b.c)
+TricAC   == <<<<4, 0, 0>>, <<0, 4, 0>>, <<2, 0, 4>>>>          \* a.c only
+TricBC   == <<<<4, 0, 0>>, <<0, 4, 0>>, <<0, 2, 4>>>>          \* b.c only
+TricABAC == <<<<4, 0, 0>>, <<2, 4, 0>>, <<2, -1, 4>>>>         \* a.b and a.c, b.c = 0
+Boxes    == <<Ortho444, Ortho248, Tric1, Tric2, RotOrtho, Ortho844, Tric3, LeftHand, TricAC, TricBC, TricABAC, Skewed>>
+Tilts(B) == <<Dot(B[1], B[2]) # 0, Dot(B[1], B[3]) # 0, Dot(B[2], B[3]) # 0>>
+ASSUME {Tilts(Boxes[i]) : i \in DOMAIN Boxes} = BOOLEAN \X BOOLEAN \X BOOLEAN
+
+V26 == Cube(-1, 1) \ {Zero3}
+V2Quick == {<<1, 0, 0>>, <<0, 1, 1>>, <<1, -1, 1>>, <<0, 0, -1>>, <<-1, 1, 0>>, <<1, 1, 0>>}
+Code(v) == (v[1] + 1) * 9 + (v[2] + 1) * 3 + (v[3] + 1)
+Mix(v1, v2, v3) == Code(v1) + 5 * Code(v2) + 11 * Code(v3)
+ShiftSeq == <<<<0, 0, 0>>, <<1, 0, -1>>, <<-2, 1, 0>>, <<0, -1, 2>>, <<1, 1, 1>>>>
+GeomCase(o, v1, v2, v3) ==
+  LET h == Mix(v1, v2, v3)
+      bi == h % (Len(Boxes) + 2)         \* indices beyond the list: no box
+      bo == IF bi >= 1 /\ bi <= Len(Boxes) - 1 THEN <<Boxes[bi]>> ELSE <<>>   \* (Skewed is not used here)
+      sh == <<ShiftSeq[(h % 5) + 1], ShiftSeq[((h \div 5) % 5) + 1], ShiftSeq[((h \div 25) % 5) + 1], ShiftSeq[((h \div 3) % 5) + 1]>>
+  IN <<"geom", <<o, v1, v2, v3, bo, sh, (h % 48) + 1>>>>
+GeomCaseNoBox(o, v1, v2, v3) == <<"geom", <<o, v1, v2, v3, <<>>, <<Zero3, Zero3, Zero3, Zero3>>, (Abs(Mix(v1, v2, v3)) % 48) + 1>>>>
+GeomCases(V1, V2, V3) == {GeomCase(IF Mix(v1, v2, v3) % 2 = 0 THEN <<0, 0, 0>> ELSE <<1, -2, 3>>, v1, v2, v3) : v1 \in V1, v2 \in V2, v3 \in V3}
+
+\* straight and folded-back collinear triples in directions whose float32 normalisation
+\* overshoots 1 (angle pi / angle 0)
+LineDirs == {<<1, 0, 4>>, <<-4, -4, -2>>, <<1, 2, 3>>, <<3, 4, 0>>, <<2, -3, 1>>, <<4, 1, -4>>}
+CollinearCases == {GeomCaseNoBox(<<0, 0, 0>>, v, VScale(s, v), <<0, 1, 0>>) : v \in LineDirs, s \in {1, 2, -1}}
+VecBoxCases(R, BX) == {<<"vecbox", <<d, B>>>> : d \in Cube(-R, R), B \in BX}
+BoxSet == {Boxes[i] : i \in DOMAIN Boxes}
+\* long boxes probed along one direction: fractions close to 1/2 on both sides (9/16, 17/32, ...)
+LongBoxes == {Diag(16, 4, 8), Diag(4, 32, 4), <<<<16, 0, 0>>, <<8, 16, 0>>, <<0, 0, 4>>>>}
+LineCases == {<<"vecbox", <<<<a * u[1] + w[1], a * u[2] + w[2], a * u[3] + w[3]>>, B>>>> :
+                 a \in -19..19, u \in {<<1, 0, 0>>, <<0, 1, 0>>, <<1, 1, 0>>}, w \in {<<0, 0, 0>>, <<0, 1, -2>>}, B \in LongBoxes}
+
+Half == {-1, 0, 1}
+CellCases(L) == {cc \in {<<"cell", <<a, b, c, ca, cb, cg>>>> : a \in L, b \in L, c \in L, ca \in Half, cb \in Half, cg \in Half} :
+                   Dom_Cell(cc[2][1], cc[2][2], cc[2][3], cc[2][4], cc[2][5], cc[2][6])}
+BoxCellCases == {<<"boxcell", <<B>>>> : B \in BoxSet}
+
+\* molecules: true coordinates (offsets from a start atom), bonds, per-atom lattice shifts
+Mol1 == <<<<1, 1, 1>>, <<2, 1, 1>>, <<2, 2, 1>>, <<1, 2, 2>>>>                 \* chain of 4
+Mol2 == <<<<0, 0, 0>>, <<1, 0, 0>>, <<3, 3, 3>>, <<3, 3, 2>>>>                 \* two diatomics far apart
+Mol3 == <<<<3, 0, 1>>, <<3, 1, 1>>, <<2, 0, 1>>>>                              \* star, centre first
+Mol4 == <<<<0, 3, 3>>>>                                                        \* single atom
+Mol5 == <<<<1, 1, 0>>, <<0, 3, 3>>, <<1, 2, 0>>, <<0, 3, 2>>>>                 \* interleaved molecules
+MolList == << <<Mol1, {{1, 2}, {2, 3}, {3, 4}}>>, <<Mol1, {{1, 2}, {3, 4}}>>, <<Mol2, {{1, 2}, {3, 4}}>>,
+              <<Mol3, {{1, 2}, {1, 3}}>>, <<Mol4, {}>>, <<Mol5, {{1, 3}, {2, 4}}>>, <<Mol2, {}>> >>
+ShiftChoices == {<<0, 0, 0>>, <<1, 0, 0>>, <<0, -1, 1>>, <<-1, 2, 0>>}
+UnwrapCases(ML, BX, SC) ==
+  {<<"unwrap", <<ML[i][1], ML[i][2], sh, B>>>> :
+      i \in DOMAIN ML, B \in BX,
+      sh \in UNION {[1..n -> SC] : n \in {Len(ML[j][1]) : j \in DOMAIN ML}}}
+UnwrapOK(c) == Len(c[2][3]) = Len(c[2][1])
+
+(* a molecule cut by one face of the box.  Elongated boxes: the shortest edge is a half / a
+   quarter (an eighth) of the longest one, the long axis is a, b or c; orthorhombic and triclinic (the
+   long vector tilted, or the short ones).  Crossed face: the lattice coefficients f of the
+   atoms beyond it - the six faces, and edges / corners in the thorough tier. *)
+Ortho484 == Diag(4, 8, 4)
+Ortho448 == Diag(4, 4, 8)
+OrthoL44 == Diag(16, 4, 4)
+Ortho4L4 == Diag(4, 16, 4)
+Ortho44L == Diag(4, 4, 16)
+TricLongA == <<<<16, 0, 0>>, <<-2, 4, 0>>, <<2, 2, 4>>>>       \* Tric3 with a doubled: short vectors tilted
+TricLongC == <<<<4, 0, 0>>, <<2, 4, 0>>, <<-2, 2, 16>>>>       \* the long vector tilted as well
+TricLongB == <<<<4, 0, 0>>, <<2, 16, 2>>, <<0, 0, 4>>>>
+ElongatedQuick == {Ortho448, OrthoL44, Ortho4L4, Ortho44L, TricLongA, TricLongC}
+ElongatedAll   == ElongatedQuick \cup {Ortho484, TricLongB, Diag(4, 32, 4)}
+ASSUME \A B \in ElongatedAll :      \* elongated: 2 * shortest edge <= longest edge
+   LET n == {Norm2(B[i]) : i \in 1..3} IN 4 * SetMin(n) <= SetMax(n)
+ASSUME \A i \in 1..3 : \E B \in ElongatedQuick :      \* each axis is the (only) long one
+   \A j \in 1..3 : j # i => 4 * Norm2(B[j]) <= Norm2(B[i])
+\* every box of every family is inside Dom_DyadicBox (exact fractions in floating point)
+ASSUME \A B \in BoxSet \cup LongBoxes \cup ElongatedAll \cup {Diag(8, 8, 8)} : Dom_DyadicBox(B)
+FaceDirs == {<<1, 0, 0>>, <<-1, 0, 0>>, <<0, 1, 0>>, <<0, -1, 0>>, <<0, 0, 1>>, <<0, 0, -1>>}
+EdgeDirs == {<<1, 1, 0>>, <<0, -1, 1>>, <<-1, 0, -1>>, <<1, -1, 1>>}
+CutCases(ML, BX, DS) ==
+  {<<"unwrap", <<ML[i][1], ML[i][2], [k \in 1..Len(ML[i][1]) |-> IF k \in S THEN f ELSE Zero3], B>>>> :
+      i \in DOMAIN ML, B \in BX, f \in DS, S \in SUBSET (1..4)}
+ASSUME \A i \in DOMAIN MolList : Len(MolList[i][1]) <= 4
+
+\* Dom_Compact of the whole chain and of every molecule depends on (molecule, box) only:
+\* tabulated once for the boxes of the tier
+MolSet == {MolList[i] : i \in DOMAIN MolList}
+UnwrapBoxes == CASE Tier = "tiny" -> {Ortho844, OrthoL44}
+                 [] Tier = "quick" -> {Ortho844, Tric3} \cup ElongatedQuick
+                 [] Tier = "thorough" -> {Ortho844, Tric3, Diag(8, 8, 8)} \cup ElongatedAll
+CompactTab ==
+  EagerFcn([mb \in MolSet \X UnwrapBoxes |->
+     LET T == mb[1][1]  B == mb[2] IN
+     <<Dom_Compact(T, B), EagerFcn([M \in Molecules(Len(T), mb[1][2]) |-> Dom_Compact(SubSeqOf(T, M), B)])>>])
+
+Pts3 == <<<<0, 0, 0>>, <<1, 2, 0>>, <<-1, 0, 3>>>>
+Pts4 == <<<<1, 1, 1>>, <<2, -1, 0>>, <<0, 0, 5>>, <<-3, 2, 2>>>>
+Pts1 == <<<<2, -3, 1>>>>
+AxisDirs == {<<2, 0, 0>>, <<0, -1, 0>>, <<0, 0, 3>>, <<-1, 0, 0>>, <<0, 4, 0>>}
+XformCases(PS) ==
+       {<<"xform", <<P, "translate", t>>>> : P \in PS, t \in {<<0, 0, 0>>, <<1, -2, 3>>, <<-7, 5, 0>>}}
+  \cup {<<"xform", <<P, "rotate", e>>>> : P \in PS, e \in EulerTriples}
+  \cup {<<"xform", <<P, "centered", e>>>> : P \in PS, e \in {<<1, 0, 0>>, <<0, 1, 0>>, <<0, 0, 1>>, <<1, 2, 3>>, <<3, 0, 2>>, <<2, 2, 1>>}}
+  \cup {<<"xform", <<P, "axis", <<t, s>>>>>> : P \in PS, t \in AxisTurns, s \in {<<0, 0, 0>>, <<1, -1, 2>>}}
+  \cup {<<"xform", <<P, "align", <<u, v, op, tp>>>>>> : P \in PS, u \in AxisDirs, v \in AxisDirs, op \in {<<0, 0, 0>>, <<1, 1, -2>>}, tp \in {<<0, 0, 0>>, <<3, 0, 1>>}}
+
+(* The case set of a tier is the union of its families.  The union is never built: TLC would
+   evaluate a zero-arity definition of it once per worker, single-threaded, merging the
+   families with a linear search per element (measured: 60 s for 15,000 cases).  Init is a
+   disjunction over the families instead; a case that two families have in common is one
+   initial state. *)
+InTiny(c) ==
+  \/ c \in GeomCases({<<1, 0, 0>>, <<0, 1, -1>>}, {<<0, 1, 0>>}, {<<0, 0, 1>>, <<1, 1, 1>>})
+  \/ c \in VecBoxCases(1, {Ortho444, Tric1})
+  \/ c \in CellCases({2}) \/ c \in BoxCellCases
+  \/ c \in {u \in UnwrapCases(<<MolList[3]>>, {Ortho844}, {<<0, 0, 0>>, <<1, 0, 0>>}) : UnwrapOK(u)}
+  \/ c \in CutCases(<<MolList[1], MolList[6]>>, {OrthoL44}, {<<0, 1, 0>>, <<-1, 0, 0>>})
+  \/ c \in XformCases({Pts3})
+InQuick(c) ==
+  \/ c \in GeomCases(V26, V2Quick, V26) \/ c \in CollinearCases
+  \/ c \in VecBoxCases(3, BoxSet) \/ c \in LineCases
+  \/ c \in CellCases({1, 2, 3}) \/ c \in BoxCellCases
+  \/ c \in {u \in UnwrapCases(MolList, {Ortho844, Tric3}, {<<0, 0, 0>>, <<1, 0, 0>>, <<0, -1, 1>>}) : UnwrapOK(u)}
+  \/ c \in CutCases(MolList, {Ortho844, Tric3} \cup ElongatedQuick, FaceDirs)
+  \/ c \in XformCases({Pts3, Pts4, Pts1})
+InThorough(c) ==
+  \/ c \in GeomCases(V26, V26, V26) \/ c \in CollinearCases
+  \/ c \in VecBoxCases(5, BoxSet) \/ c \in LineCases
+  \/ c \in CellCases({1, 2, 3, 5}) \/ c \in BoxCellCases
+  \/ c \in {u \in UnwrapCases(MolList, {Ortho844, Tric3, Diag(8, 8, 8)}, ShiftChoices) : UnwrapOK(u)}
+  \/ c \in CutCases(MolList, {Ortho844, Tric3, Diag(8, 8, 8)} \cup ElongatedAll, FaceDirs \cup EdgeDirs)
+  \/ c \in XformCases({Pts3, Pts4, Pts1})
 
 (* ------------------------------------------------------------------ evaluation *)
 GeomPoints(o, v1, v2, v3) == <<o, VAdd(o, v1), VAdd(VAdd(o, v1), v2), VAdd(VAdd(VAdd(o, v1), v2), v3)>>
@@ -112,11 +257,13 @@ EvalBoxCell(c) ==
 
 EvalUnwrap(c) ==
   LET T == c[1]  bonds == c[2]  sh == c[3]  B == c[4]
-      C == [k \in DOMAIN T |-> VAdd(T[k], LatVec(sh[k], B))]
-      U == RemovePbcFromCoord(C, B)
+      \* (sequences that are read many times are tabulated once: TLC's functions are lazy)
+      C == EagerSeq([k \in DOMAIN T |-> VAdd(T[k], LatVec(sh[k], B))])
+      U == EagerSeq(RemovePbcFromCoord(C, B))
       R == RemovePbc(C, bonds, B)
       mols == Molecules(Len(T), bonds)
-      chainCompact == Dom_Compact(T, B)
+      ct == CompactTab[<<<<T, bonds>>, B>>]       \* = <<Dom_Compact(T, B), [M \in mols |-> Dom_Compact(SubSeqOf(T, M), B)]>>
+      chainCompact == ct[1]
       \* no molecule's centroid lies exactly on a box face (else its placement is rounding-dependent)
       faceFree == \A M \in mols : ~CentroidOnFace(RemovePbcFromCoord(SubSeqOf(C, M), B), B)
   IN << <<C, U, R, chainCompact, Adj(B), Det(B), faceFree>>,
@@ -127,10 +274,10 @@ EvalUnwrap(c) ==
            /\ chainCompact => \A k \in DOMAIN C : VSub(U[k], U[1]) = VSub(T[k], T[1]),
            \* remove_pbc restores every (compact) molecule and leaves bonded atoms at
            \* minimum-image distance
-           \A M \in mols : Dom_Compact(SubSeqOf(T, M), B) =>
+           \A M \in mols : ct[2][M] =>
               /\ \A i, j \in M : VSub(R[j], R[i]) = VSub(T[j], T[i])
               /\ \A b \in bonds : b \subseteq M =>
-                    \A i, j \in b : Norm2(VSub(R[j], R[i])) = MinImageN2(VSub(R[j], R[i]), B, 2),
+                    \A i, j \in b : i < j => Norm2(VSub(R[j], R[i])) = MinImageN2(VSub(R[j], R[i]), B, 2),
            \* the centroid of every molecule lies in the box: 0 <= frac < 1
            \A M \in mols :
               LET s == VSum(SubSeqOf(R, M))  m == Cardinality(M)  f == FracNum(s, B)  d == m * Det(B)
@@ -160,98 +307,13 @@ Evaluate(c) ==
     [] c[1] = "unwrap"  -> EvalUnwrap(c[2])
     [] c[1] = "xform"   -> EvalXform(c[2])
 
-(* ------------------------------------------------------------------ bounded families *)
-Ortho444 == Diag(4, 4, 4)
-Ortho248 == Diag(2, 4, 8)
-Tric1    == <<<<4, 0, 0>>, <<2, 4, 0>>, <<0, 0, 4>>>>
-Tric2    == <<<<4, 0, 0>>, <<0, 4, 0>>, <<2, -2, 4>>>>
-RotOrtho == <<<<2, 2, 0>>, <<-2, 2, 0>>, <<0, 0, 4>>>>
-Ortho844 == Diag(8, 4, 4)
-Tric3    == <<<<8, 0, 0>>, <<-2, 4, 0>>, <<2, 2, 4>>>>
-LeftHand == <<<<0, 4, 0>>, <<4, 0, 0>>, <<0, 0, 4>>>>
-Skewed   == <<<<4, 0, 0>>, <<6, 4, 0>>, <<0, 2, 4>>>>          \* heavily skewed: outside Dom_HalfHeight often
-Boxes    == <<Ortho444, Ortho248, Tric1, Tric2, RotOrtho, Ortho844, Tric3, LeftHand, Skewed>>
-
-V26 == Cube(-1, 1) \ {Zero3}
-V2Quick == {<<1, 0, 0>>, <<0, 1, 1>>, <<1, -1, 1>>, <<0, 0, -1>>, <<-1, 1, 0>>, <<1, 1, 0>>}
-Code(v) == (v[1] + 1) * 9 + (v[2] + 1) * 3 + (v[3] + 1)
-Mix(v1, v2, v3) == Code(v1) + 5 * Code(v2) + 11 * Code(v3)
-ShiftSeq == <<<<0, 0, 0>>, <<1, 0, -1>>, <<-2, 1, 0>>, <<0, -1, 2>>, <<1, 1, 1>>>>
-GeomCase(o, v1, v2, v3) ==
-  LET h == Mix(v1, v2, v3)
-      bi == h % (Len(Boxes) + 2)         \* indices beyond the list: no box
-      bo == IF bi >= 1 /\ bi <= Len(Boxes) - 1 THEN <<Boxes[bi]>> ELSE <<>>   \* (Skewed is not used here)
-      sh == <<ShiftSeq[(h % 5) + 1], ShiftSeq[((h \div 5) % 5) + 1], ShiftSeq[((h \div 25) % 5) + 1], ShiftSeq[((h \div 3) % 5) + 1]>>
-  IN <<"geom", <<o, v1, v2, v3, bo, sh, (h % 48) + 1>>>>
-GeomCaseNoBox(o, v1, v2, v3) == <<"geom", <<o, v1, v2, v3, <<>>, <<Zero3, Zero3, Zero3, Zero3>>, (Abs(Mix(v1, v2, v3)) % 48) + 1>>>>
-GeomCases(V1, V2, V3) == {GeomCase(IF Mix(v1, v2, v3) % 2 = 0 THEN <<0, 0, 0>> ELSE <<1, -2, 3>>, v1, v2, v3) : v1 \in V1, v2 \in V2, v3 \in V3}
-
-\* straight and folded-back collinear triples in directions whose float32 normalisation
-\* overshoots 1 (angle pi / angle 0)
-LineDirs == {<<1, 0, 4>>, <<-4, -4, -2>>, <<1, 2, 3>>, <<3, 4, 0>>, <<2, -3, 1>>, <<4, 1, -4>>}
-CollinearCases == {GeomCaseNoBox(<<0, 0, 0>>, v, VScale(s, v), <<0, 1, 0>>) : v \in LineDirs, s \in {1, 2, -1}}
-VecBoxCases(R, BX) == {<<"vecbox", <<d, B>>>> : d \in Cube(-R, R), B \in BX}
-BoxSet == {Boxes[i] : i \in DOMAIN Boxes}
-\* long boxes probed along one direction: fractions close to 1/2 on both sides (9/16, 17/32, ...)
-LongBoxes == {Diag(16, 4, 8), Diag(4, 32, 4), <<<<16, 0, 0>>, <<8, 16, 0>>, <<0, 0, 4>>>>}
-LineCases == {<<"vecbox", <<<<a * u[1] + w[1], a * u[2] + w[2], a * u[3] + w[3]>>, B>>>> :
-                 a \in -19..19, u \in {<<1, 0, 0>>, <<0, 1, 0>>, <<1, 1, 0>>}, w \in {<<0, 0, 0>>, <<0, 1, -2>>}, B \in LongBoxes}
-
-Half == {-1, 0, 1}
-CellCases(L) == {cc \in {<<"cell", <<a, b, c, ca, cb, cg>>>> : a \in L, b \in L, c \in L, ca \in Half, cb \in Half, cg \in Half} :
-                   Dom_Cell(cc[2][1], cc[2][2], cc[2][3], cc[2][4], cc[2][5], cc[2][6])}
-BoxCellCases == {<<"boxcell", <<B>>>> : B \in BoxSet}
-
-\* molecules: true coordinates (offsets from a start atom), bonds, per-atom lattice shifts
-Mol1 == <<<<1, 1, 1>>, <<2, 1, 1>>, <<2, 2, 1>>, <<1, 2, 2>>>>                 \* chain of 4
-Mol2 == <<<<0, 0, 0>>, <<1, 0, 0>>, <<3, 3, 3>>, <<3, 3, 2>>>>                 \* two diatomics far apart
-Mol3 == <<<<3, 0, 1>>, <<3, 1, 1>>, <<2, 0, 1>>>>                              \* star, centre first
-Mol4 == <<<<0, 3, 3>>>>                                                        \* single atom
-Mol5 == <<<<1, 1, 0>>, <<0, 3, 3>>, <<1, 2, 0>>, <<0, 3, 2>>>>                 \* interleaved molecules
-MolList == << <<Mol1, {{1, 2}, {2, 3}, {3, 4}}>>, <<Mol1, {{1, 2}, {3, 4}}>>, <<Mol2, {{1, 2}, {3, 4}}>>,
-              <<Mol3, {{1, 2}, {1, 3}}>>, <<Mol4, {}>>, <<Mol5, {{1, 3}, {2, 4}}>>, <<Mol2, {}>> >>
-ShiftChoices == {<<0, 0, 0>>, <<1, 0, 0>>, <<0, -1, 1>>, <<-1, 2, 0>>}
-UnwrapCases(ML, BX, SC) ==
-  {<<"unwrap", <<ML[i][1], ML[i][2], sh, B>>>> :
-      i \in DOMAIN ML, B \in BX,
-      sh \in UNION {[1..n -> SC] : n \in {Len(ML[j][1]) : j \in DOMAIN ML}}}
-UnwrapOK(c) == Len(c[2][3]) = Len(c[2][1])
-
-Pts3 == <<<<0, 0, 0>>, <<1, 2, 0>>, <<-1, 0, 3>>>>
-Pts4 == <<<<1, 1, 1>>, <<2, -1, 0>>, <<0, 0, 5>>, <<-3, 2, 2>>>>
-Pts1 == <<<<2, -3, 1>>>>
-AxisDirs == {<<2, 0, 0>>, <<0, -1, 0>>, <<0, 0, 3>>, <<-1, 0, 0>>, <<0, 4, 0>>}
-XformCases(PS) ==
-       {<<"xform", <<P, "translate", t>>>> : P \in PS, t \in {<<0, 0, 0>>, <<1, -2, 3>>, <<-7, 5, 0>>}}
-  \cup {<<"xform", <<P, "rotate", e>>>> : P \in PS, e \in EulerTriples}
-  \cup {<<"xform", <<P, "centered", e>>>> : P \in PS, e \in {<<1, 0, 0>>, <<0, 1, 0>>, <<0, 0, 1>>, <<1, 2, 3>>, <<3, 0, 2>>, <<2, 2, 1>>}}
-  \cup {<<"xform", <<P, "axis", <<t, s>>>>>> : P \in PS, t \in AxisTurns, s \in {<<0, 0, 0>>, <<1, -1, 2>>}}
-  \cup {<<"xform", <<P, "align", <<u, v, op, tp>>>>>> : P \in PS, u \in AxisDirs, v \in AxisDirs, op \in {<<0, 0, 0>>, <<1, 1, -2>>}, tp \in {<<0, 0, 0>>, <<3, 0, 1>>}}
-
-CasesTiny(z) == GeomCases({<<1, 0, 0>>, <<0, 1, -1>>}, {<<0, 1, 0>>}, {<<0, 0, 1>>, <<1, 1, 1>>})
-       \cup VecBoxCases(1, {Ortho444, Tric1})
-       \cup CellCases({2}) \cup BoxCellCases
-       \cup {c \in UnwrapCases(<<MolList[3]>>, {Ortho844}, {<<0, 0, 0>>, <<1, 0, 0>>}) : UnwrapOK(c)}
-       \cup XformCases({Pts3})
-CasesQuick(z) == GeomCases(V26, V2Quick, V26) \cup CollinearCases
-       \cup VecBoxCases(3, BoxSet) \cup LineCases
-       \cup CellCases({1, 2, 3}) \cup BoxCellCases
-       \cup {c \in UnwrapCases(MolList, {Ortho844, Tric3}, {<<0, 0, 0>>, <<1, 0, 0>>, <<0, -1, 1>>}) : UnwrapOK(c)}
-       \cup XformCases({Pts3, Pts4, Pts1})
-CasesThorough(z) == GeomCases(V26, V26, V26) \cup CollinearCases
-       \cup VecBoxCases(5, BoxSet) \cup LineCases
-       \cup CellCases({1, 2, 3, 5}) \cup BoxCellCases
-       \cup {c \in UnwrapCases(MolList, {Ortho844, Tric3, Diag(8, 8, 8)}, ShiftChoices) : UnwrapOK(c)}
-       \cup XformCases({Pts3, Pts4, Pts1})
-\* (the families take a dummy parameter so that TLC evaluates only the selected one at start-up)
-Cases == CASE Tier = "tiny" -> CasesTiny(0) [] Tier = "quick" -> CasesQuick(0) [] Tier = "thorough" -> CasesThorough(0)
-
 (* ------------------------------------------------------------------ the model *)
 \* (state variables named so that they cannot coincide with a bound variable or parameter
 \* of a constant definition - TLC would stop caching such definitions)
 VARIABLES vcase, vout
 vars == <<vcase, vout>>
-Init == vcase \in Cases /\ vout = <<>>
+Init == /\ vout = <<>>
+        /\ CASE Tier = "tiny" -> InTiny(vcase) [] Tier = "quick" -> InQuick(vcase) [] Tier = "thorough" -> InThorough(vcase)
 Next == vout = <<>> /\ vout' = Evaluate(vcase) /\ UNCHANGED vcase
 Spec == Init /\ [][Next]_vars
 Done == vout # <<>>
@@ -259,7 +321,9 @@ Done == vout # <<>>
 \* S1: every design claim of every case holds
 InvClaims == Done => \A i \in DOMAIN vout[2] : vout[2][i]
 \* the molecules of the unwrap family are inside the property's domain (bonded components compact)
+\* (evaluated on the evaluated states only: TLC checks initial states in a single thread)
 InvUnwrapDomain ==
-  (vcase[1] = "unwrap") =>
-     \A M \in Molecules(Len(vcase[2][1]), vcase[2][2]) : Dom_Compact(SubSeqOf(vcase[2][1], M), vcase[2][4])
+  (Done /\ vcase[1] = "unwrap") =>
+     LET ct == CompactTab[<<<<vcase[2][1], vcase[2][2]>>, vcase[2][4]>>]
+     IN \A M \in Molecules(Len(vcase[2][1]), vcase[2][2]) : ct[2][M]
 =============================================================================
